@@ -145,7 +145,7 @@ def check_transparent_properties(rep, repo: Repo, pre: str = "") -> int:
                 body = _body(g.node)
                 want = DERIVED_GETTERS.get((ci.name, name), f"self._{name}")
                 ok = len(body) == 1 and isinstance(body[0], ast.Return) and body[0].value is not None \
-                    and unparse(body[0].value) == want
+                    and unparse(body[0].value) in (want, want.replace("self.", "self._"))  # (the field read directly)
                 if not ok and name not in ci.setters and _pure_view(body, ci, name):
                     # a read-only, computed view of other fields (no setter, no private twin written anywhere): it cannot
                     # make a stored field differ from what was stored
@@ -225,8 +225,18 @@ def _setter_semantic(repo: Repo, ci, name: str, st) -> tuple:
     twin = ("attr", ("self",), "_" + name)
     arg = ("param", params[1])
     stores = [e for e in w.events if e.kind == "store"]
+    def unwrap(v):
+        # `value.item()` is the same number as a Python scalar; a selection whose arms are both the argument is the argument
+        if v[0] == "call" and v[1] == ("attr", arg, "item") and not v[2] and not v[3]:
+            return arg
+        if v[0] == "sel":
+            a, b = unwrap(v[2]), unwrap(v[3])
+            if a == b:
+                return a
+        return v
+
     def same_as_arg(e):
-        if e.value == arg:
+        if e.value == arg or unwrap(e.value) == arg:
             return True
         if e.value[0] == "const":  # `if x is None: self._x = None`: the constant IS the argument on that path
             for f in facts(e.guards):
@@ -234,8 +244,55 @@ def _setter_semantic(repo: Repo, ci, name: str, st) -> tuple:
                     return True
         return False
 
-    if any(e.target != twin or not same_as_arg(e) or e.aug for e in stores):
-        bad = next(e for e in stores if e.target != twin or not same_as_arg(e) or e.aug)
+    def never_read(e):
+        # a store into a field that nothing in the library ever loads (a bookkeeping twin kept in step): unobservable
+        t = e.target
+        if not (t[0] == "attr" and t[1] == ("self",) and t != twin):
+            return False
+        key = ("attr_loads", t[2])
+        if key not in repo.memo:
+            repo.memo[key] = sum(1 for mi in repo.modules.values() for n in ast.walk(mi.tree)
+                                 if isinstance(n, ast.Attribute) and n.attr == t[2] and isinstance(n.ctx, ast.Load))
+        return repo.memo[key] == 0
+
+    def flag_as_bool(e):
+        # `bool(flag)` after `isinstance(flag, (bool, np.bool_))` was enforced: the same truth value
+        v = e.value
+        if not (v[0] == "call" and v[1] == ("builtin", "bool") and v[2] == (arg,) and not v[3]):
+            return False
+        for r in w.events:
+            if r.kind == "raise":
+                for g, pol in r.guards:
+                    t = g if pol else mk_not(g)
+                    if t[0] == "not" and t[1][0] == "call" and t[1][1] == ("builtin", "isinstance") and t[1][2][:1] == (arg,):
+                        types = t[1][2][1]
+                        names = [types] if types[0] != "tuple" else list(types[1])
+                        if names and all(x in (("builtin", "bool"), ("mod", "numpy.bool_"), ("mod", "numpy.bool")) for x in names):
+                            return True
+        return False
+
+    def derived_twin(e):
+        # `self._flag = f(arg)` next to the store of the argument, with f built from the argument and constants only and
+        # the field written nowhere else in the class: a cached function of the stored value, always in step with it
+        t = e.target
+        if not (t[0] == "attr" and t[1] == ("self",) and t != twin) or e.aug or e.guards != next(
+                (x.guards for x in stores if x.target == twin), None):
+            return False
+        from .ir import subterms
+        leaves = [u for u in subterms(e.value) if u[0] in ("param", "attr", "idx", "call", "phi", "iter", "free", "alloc", "new")]
+        if any(u != arg for u in leaves):
+            return False
+        for fi in list(ci.methods.values()) + list(ci.setters.values()):
+            if fi is st:
+                continue
+            for n in ast.walk(fi.node):
+                if isinstance(n, ast.Attribute) and n.attr == t[2] and isinstance(n.ctx, (ast.Store, ast.Del)):
+                    return False
+        return True
+
+    stores = [e for e in stores if not never_read(e) and not derived_twin(e)]
+    if any(e.target != twin or not (same_as_arg(e) or flag_as_bool(e)) or e.aug for e in stores):
+        bad = next(e for e in stores if e.target != twin or not (same_as_arg(e) or flag_as_bool(e)) or e.aug)
         return False, f"the setter stores '{bad.text()[:80]}' (only `self._{name} = {params[1]}` is allowed)"
     if any(e.kind == "bind" and e.name == params[1] for e in w.events):
         return False, f"the setter rebinds its argument '{params[1]}' before storing it"
@@ -251,7 +308,7 @@ def _setter_semantic(repo: Repo, ci, name: str, st) -> tuple:
         live = [e for e in w.events if all(_truth(g, env) == pol for g, pol in e.guards)]
         if any(e.kind == "raise" for e in live):
             continue
-        n = sum(1 for e in live if e.kind == "store")
+        n = sum(1 for e in live if e.kind == "store" and not never_read(e) and not derived_twin(e))
         if n != 1:
             return False, (f"on the path where {', '.join(show(a)[:40] + '=' + str(b) for a, b in env.items())} the argument is stored "
                            f"{n} times")
